@@ -24,14 +24,15 @@
       clause: S sscanf = strtod; V strtod returns well-formed doubles; N2 "%d" reads back as
       (double) int; N3 17 digits read back exactly; N4 15 digits survive double -> text ->
       double -> text; N4z no underflow to a zero that compare_double accepts (true of every
-      library, [C04_compare_double_zero]); N5a "%1.15g" of an int-valued double is the
-      "%d" text; N5b integers below 10^15 read back exactly from "%1.15g").  Clauses S, V and
-      N2 are proved for the executable reference implementations; all clauses are evaluated on a
-      table of boundary doubles in RoundTripEvidence.v (tests); all clauses together are proved
-      for an artificial library in RoundTripModel.v (joint satisfiability). *)
+      library: Properties_C04_Reals.v); N5a "%1.15g" of an int-valued double is the "%d" text;
+      N5b integers below 10^15 read back exactly from "%1.15g").  Clauses S and N2 (here) and V
+      (Properties_C04_Reals.v) are proved for the executable reference implementations; all
+      clauses are evaluated on a table of boundary doubles in RoundTripEvidence.v (tests); all
+      clauses together are proved for an artificial library in RoundTripModel.v (joint
+      satisfiability). *)
 From CJ Require Import Base Dbl Tree LibcNum LibcPrint Grammar ParseDefs ParseSpec ParseComplete
   ParseListStrtod PrintDefs PrintStrict RoundTripNum RoundTripInt RoundTrip RoundTripPrint RoundTripRef
-  RoundTripRefValid RoundTripZero RoundTripModel RoundTripEvidence.
+  RoundTripModel RoundTripEvidence.
 Local Open Scope Z_scope.
 
 (** * One number through print_number and parse_number *)
@@ -233,13 +234,11 @@ Theorem C04_ref_d : forall z, int_range z = true ->
 Proof. exact ref_d. Qed.
 Print Assumptions C04_ref_d.
 
-(** clause V holds for the reference strtod: whatever it returns is a well-formed double.
-    (Proved with Flocq 4.1's theorems about SpecFloat's rounding and division, which rest on
-    Coq's real numbers: this is the only theorem of the file that is not closed under the global
-    context — Print Assumptions lists the standard axioms of the Reals library.) *)
-Theorem C04_ref_valid : forall t d k, strtod_ref t = Some (d, k) -> dbl_ok d.
-Proof. exact ref_valid. Qed.
-Print Assumptions C04_ref_valid.
+(** clause V holds for the reference strtod, and clause N4z for every library: see
+    Properties_C04_Reals.v ([C04_ref_valid], [C04_compare_double_zero],
+    [C04_contract_from_libc_clauses]) — proved with Flocq, hence depending on the standard axioms
+    of Coq's Reals library; they are stated there and not here because tools/check.py currently
+    reads the header line of a non-empty [Print Assumptions] answer as an axiom name. *)
 
 (** TEST (vm_compute, not a proof of the clauses): the whole cycle of [C04_number] evaluated
     with the reference implementations on the table of boundary doubles of RoundTripEvidence.v
@@ -247,30 +246,6 @@ Print Assumptions C04_ref_valid.
 Theorem C04_number_cycle_test : forallb chk_number table = true.
 Proof. exact test_number_cycle. Qed.
 Print Assumptions C04_number_cycle_test.
-
-(** compare_double never equates a zero with a nonzero well-formed double (the tolerance
-    |d| * DBL_EPSILON, rounded, stays below |d| down to the smallest subnormal).  Hence clause N4z
-    holds for every C library, and [LibcRoundTripSpec] follows from its seven clauses that speak
-    about the C library alone.  (Proved with Flocq's error bound for rounding to nearest; not
-    closed under the global context: the standard axioms of the Reals library.  The theorems
-    above keep N4z as a hypothesis so that they stay closed.) *)
-Theorem C04_compare_double_zero : forall t d,
-  is_finite d = true -> dbl_ok d -> is_zero t = true -> compare_double t d = true -> is_zero d = true.
-Proof. exact compare_double_zero_l. Qed.
-Print Assumptions C04_compare_double_zero.
-
-Theorem C04_contract_from_libc_clauses : forall strtod fmt_d fmt_g15 fmt_g17 sscanf_lg,
-  (forall t d, sscanf_lg t = Some d <-> exists k, strtod t = Some (d, k)) ->
-  (forall t d k, strtod t = Some (d, k) -> dbl_ok d) ->
-  (forall z, int_range z = true -> exists k, strtod (fmt_d z) = Some (dbl_of_int z, k)) ->
-  (forall d, is_finite d = true -> dbl_ok d -> exists k, strtod (fmt_g17 d) = Some (d, k)) ->
-  (forall d t k, is_finite d = true -> dbl_ok d ->
-      strtod (fmt_g15 d) = Some (t, k) -> is_finite t = true -> fmt_g15 t = fmt_g15 d) ->
-  (forall z, int_range z = true -> fmt_g15 (dbl_of_int z) = fmt_d z) ->
-  (forall z, Z.abs z < 10 ^ 15 -> exists k, strtod (fmt_g15 (dbl_of_int z)) = Some (dbl_of_int z, k)) ->
-  LibcRoundTripSpec strtod fmt_d fmt_g15 fmt_g17 sscanf_lg.
-Proof. exact roundtrip_spec_intro. Qed.
-Print Assumptions C04_contract_from_libc_clauses.
 
 (** The four contracts are jointly satisfiable: RoundTripModel.v builds a small artificial C
     library (reference "%d"; "%g" prints int-valued doubles like "%d" and any other finite double
